@@ -63,7 +63,34 @@ class Cluster:
                 raise LookupError(f"unbound cluster object {nm}: class {cls} not found in {rel}")
             self.classes[nm] = cd
             reg.register_repo_class(cd)
+            self._discover_fields(cd)
         self.components = self._components()
+
+    def _discover_fields(self, cd):
+        """a field the spec does not declare but the constructor initialises with a bool/int/str literal is
+        tracked automatically (so a change that introduces a flag stays within reach: the flag becomes a
+        component of the invariant template like any declared bool field)"""
+        spec = self.spec
+        known = set(spec.fields.get(cd.name, {})) | set(spec.const_fields.get(cd.name, {}))
+        self.discovered = getattr(self, "discovered", [])
+        for item in cd.node.body:
+            if not (isinstance(item, ast.FunctionDef) and item.name in ("__init__", "__attrs_post_init__")):
+                continue
+            for st in item.body:
+                if not (isinstance(st, ast.Assign) and len(st.targets) == 1 and isinstance(st.targets[0], ast.Attribute)
+                        and isinstance(st.targets[0].value, ast.Name) and st.targets[0].value.id == "self"
+                        and isinstance(st.value, ast.Constant)):
+                    continue
+                f, v = st.targets[0].attr, st.value.value
+                if f in known:
+                    continue
+                t = "bool" if isinstance(v, bool) else "int" if isinstance(v, int) else "str" if isinstance(v, str) else None
+                if t is None:
+                    continue
+                spec.fields.setdefault(cd.name, {})[f] = t
+                spec.init.setdefault(cd.name, {})[f] = repr(v)
+                known.add(f)
+                self.discovered.append(f"{cd.name}.{f}")
 
     # -------------------------------------------------------------- object graph
     def build(self, it):
